@@ -1,7 +1,7 @@
 (* C18 proofs: sorting after collecting erases the iteration order of a hash set; an unsorted
    iteration does not. *)
 From VV.EXP Require Import Imports.
-From Coq Require Import Lia Permutation.
+From Coq Require Import Lia Permutation Sorted.
 
 Definition admissible {A} (pi : list A -> list A) : Prop := forall l, Permutation (pi l) l.
 
@@ -207,3 +207,59 @@ Proof.
     + eapply Permutation_NoDup; [apply Permutation_map, Permutation_sym, H' | exact ND].
     + eapply Permutation_NoDup; [apply Permutation_map, Permutation_sym, H | exact ND].
 Qed.
+
+(* ---------- the sort is THE byte-wise one: String.compare on the UTF-8 bytes (= Rust's Ord for str) ---------- *)
+Definition bytewise_le (a b : string) : Prop := String.compare a b <> Gt.
+
+Lemma leb_bytewise a b : String.leb a b = true <-> bytewise_le a b.
+Proof. unfold String.leb, bytewise_le. destruct (String.compare a b); split; congruence. Qed.
+
+Lemma insert_perm x : forall l, Permutation (insert_le String.leb x l) (x :: l).
+Proof.
+  induction l as [|y r IH]; cbn [insert_le]; [apply Permutation_refl|].
+  destruct (String.leb x y); [apply Permutation_refl|].
+  eapply Permutation_trans; [apply perm_skip, IH | apply perm_swap].
+Qed.
+
+Lemma sort_str_permutation l : Permutation (sort_str l) l.
+Proof.
+  unfold sort_str, sort_le. induction l as [|x r IH]; cbn [fold_right]; [constructor|].
+  eapply Permutation_trans; [apply insert_perm | now apply perm_skip].
+Qed.
+
+Lemma insert_sorted x : forall l, StronglySorted bytewise_le l ->
+  StronglySorted bytewise_le (insert_le String.leb x l).
+Proof.
+  induction l as [|y r IH]; intro S; cbn [insert_le].
+  - constructor; constructor.
+  - inversion S as [|? ? Sr Fy]; subst. destruct (String.leb x y) eqn:E.
+    + constructor; [exact S|]. constructor; [now apply leb_bytewise|].
+      eapply Forall_impl; [|exact Fy]. intros z Hz. apply leb_bytewise.
+      eapply leb_trans; [exact E | now apply leb_bytewise].
+    + constructor; [now apply IH|].
+      assert (Hyx : String.leb y x = true) by now apply leb_false_leb.
+      eapply Permutation_Forall; [apply Permutation_sym, insert_perm|].
+      constructor; [now apply leb_bytewise | exact Fy].
+Qed.
+
+Theorem sort_str_sorted l : StronglySorted bytewise_le (sort_str l).
+Proof.
+  unfold sort_str, sort_le. induction l as [|x r IH]; cbn [fold_right]; [constructor | now apply insert_sorted].
+Qed.
+
+(* the names after `from sqlalchemy import` are exactly the set of inserted names, in strictly byte-wise order,
+   whatever the iteration order of the HashSet was *)
+Theorem sa_line_bytewise_sorted pi t : admissible pi ->
+  exists l, sa_line pi t = "from sqlalchemy import " +++ join ", " l
+            /\ Permutation l (hs_of_inserts (sa_inserts t) [])
+            /\ StronglySorted bytewise_le l.
+Proof.
+  intro H. exists (sort_str (hs_iter pi (sa_inserts t))). split; [reflexivity|]. split.
+  - eapply Permutation_trans; [apply sort_str_permutation | apply H].
+  - apply sort_str_sorted.
+Qed.
+
+(* upper-case names sort before the lower-case helper: the witness a case-insensitive key would reorder *)
+Example bytewise_order_witness :
+  sort_str ["text"; "Uuid"; "Integer"; "Text"] = ["Integer"; "Text"; "Uuid"; "text"].
+Proof. vm_compute. reflexivity. Qed.
